@@ -200,7 +200,7 @@ def battery(w, mini=False):
     for g in range(3):
         ops += [('GetFF', g, 'Fidelity', 'Second', False), ('GetDeriv', g), ('GetCM', g, True),
                 ('GetFF', g, 'Generalized', 'First', False), ('GetPhases', g),
-                ('Infidelity', g, 'Total', w.traceless, False), ('Cumulant', g, 'Total', True, None)]
+                ('Infidelity', g, 'Total', False), ('Cumulant', g, 'Total', True, None)]
     return ops
 
 
